@@ -3,9 +3,10 @@
    No Extract Constant of our own. *)
 Require Extraction.
 Require Import ExtrOcamlBasic.
-From V.model Require Import Base Deb822Lex Deb822Parse.
+From V.model Require Import Base Deb822Lex Deb822Parse RelLex RelParse.
 Extraction Language OCaml.
 Extraction "model.ml"
   utf8_len text depth
   kind_code lex_ lex lex_inline
-  parse from_str from_str_relaxed paragraphs items get get_all keys contains_key doc_items.
+  Deb822Parse.parse from_str from_str_relaxed paragraphs items get get_all keys contains_key doc_items
+  rkind_code rlex RelParse.parse parse_relaxed relations_from_str entry_from_str relation_from_str.
